@@ -9,7 +9,7 @@
                  janetc_pop_funcdef janet_compile
      specials.c  janetc_varset (symbol) namelocal varleaf/defleaf (local scopes) janetc_var janetc_def (symbol pattern)
                  janetc_if janetc_do janetc_upscope janetc_break janetc_while (incl. the loop-as-function rewrite)
-                 janetc_fn (symbol parameters, optional self name)
+                 janetc_fn (symbol parameters, optional self name) janetc_fn_moveargs
    Everything else (destructuring patterns, &-parameters, quote/quasiquote/splice, table/struct literals, top-level def/var,
    global vars, calls of functions that have a call-site optimizer) makes the model return `none` = "outside the fragment".
 
@@ -446,6 +446,43 @@ def symParams : List Expr → Option (List String)
   | .sym s :: rest => if s.startsWith "&" then none else (symParams rest).map (s :: ·)
   | _ => none
 
+/-! ### `janetc_fn_moveargs` (fix 71c4f8f): the VM puts argument k in stack slot k, the allocator never hands out 0xF0–0xFF, so
+    from the 241st argument on the parameter's register is higher than the slot the argument arrives in -/
+
+/-- `for (k = lo + m − 1; k >= lo; k--)`: arguments at 0x100 and above go through the temporary 0xFF -/
+def movesHigh (reg : Nat → Nat) (lo : Nat) : Nat → List MI
+  | 0 => []
+  | m + 1 => [.movn 0xFF (lo + m), .movf 0xFF (reg (lo + m))] ++ movesHigh reg lo m
+
+/-- `for (k = lo + m − 1; k >= lo; k--) MOVE_FAR k → reg k` -/
+def movesLow (reg : Nat → Nat) (lo : Nat) : Nat → List MI
+  | 0 => []
+  | m + 1 => .movf (lo + m) (reg (lo + m)) :: movesLow reg lo m
+
+/-- the whole entry sequence for `n` stack arguments (`n > 0xF0`), `reg k` = register of argument k, `park` = spare register -/
+def moveArgsCode (n : Nat) (reg : Nat → Nat) (park : Nat) : List MI :=
+  if n > 0x100 then
+    .movf 0xFF park :: (movesHigh reg 0x100 (n - 0x100) ++ movesLow reg 0xF0 15 ++ [.movn 0xFF park, .movf 0xFF (reg 0xFF)])
+  else movesLow reg 0xF0 (n - 0xF0)
+
+def emitMIs (c : CState) (is : List MI) : CState := is.foldl (fun cc i => emitRaw cc (.mi i)) c
+
+/-- `janetc_fn_moveargs` -/
+def fnMoveArgs (c : CState) (argregs : List Nat) : Option CState :=
+  let n := argregs.length
+  let reg := fun k => argregs.getD k 0
+  if n ≤ 0xF0 then some c else
+  if n > 0x100 then do
+    let (park, c1) ← allocFar c
+    let c2 := emitMIs c1 (moveArgsCode n reg park)
+    match c2.scopes with
+    | sc :: rest => some { c2 with scopes := { sc with ra := sc.ra.unmark park } :: rest }      -- janetc_regalloc_free
+    | [] => none
+  else some (emitMIs c (moveArgsCode n reg 0))
+
+/-- register of a parameter's slot (`argslot.index`) -/
+def slotReg (s : JSlot) : Nat := match s.k with | .loc i => i | _ => 0
+
 /-- function call: `janetc_value` tuple case + `janetc_call` -/
 def cCall (rec' : Fopts → Expr → CState → Option (JSlot × CState)) (opts : Fopts) (hd : Expr) (args : List Expr) (c : CState) :
     Option (JSlot × CState) := do
@@ -670,7 +707,9 @@ def cValue : Nat → Fopts → Expr → CState → Option (JSlot × CState)
           | some names => do
             let c1 : CState := { c with scopes := c.scopes.modify 0 (fun s => { s with closure := true }) }
             let c2 := pushScope c1 true false false false
-            let c3 ← names.foldlM (fun (cc : CState) nm => do let (s, cc') ← farslot cc; pure (nameslot cc' nm s)) c2
+            let c3p ← names.foldlM (fun (cc : CState) nm => do let (s, cc') ← farslot cc; pure (nameslot cc' nm s)) c2
+            -- `argregs`: the fresh function scope's symbols are exactly the parameters, in stack order
+            let c3 ← fnMoveArgs c3p ((c3p.scopes.headD default).syms.map (fun p => slotReg p.slot))
             let c4 ← match self with
               | some nm =>
                 if names.contains nm then pure c3 else do
